@@ -1319,4 +1319,241 @@ theorem dlLoop_honest_resume (cfg : Cfg) (hash : Bytes → Digest) (reg : Regist
       simp only [dlLoop, hd, hbl, hls, hdl, hcond, hcan, hcf, Bool.false_eq_true, if_false]
       exact hs'
 
+/-! ## the honest path from a multi-part resume state (pointwise argument, any Glob order) -/
+
+theorem writeAt_getElem? (f d : Bytes) (off i : Nat) (hd : d ≠ []) (h : off + d.length ≤ f.length) :
+    (writeAt f off d)[i]? = if off ≤ i ∧ i < off + d.length then d[i - off]? else f[i]? := by
+  have he : d.isEmpty = false := by cases d <;> simp_all
+  have hz : off - f.length = 0 := by omega
+  unfold writeAt
+  simp only [he, hz, zeros, List.replicate_zero, List.append_nil, Bool.false_eq_true, ↓reduceIte]
+  have hlt : (f.take off).length = off := by simp; omega
+  by_cases h1 : i < off
+  · have : ¬ (off ≤ i ∧ i < off + d.length) := by omega
+    rw [if_neg this, List.append_assoc, List.getElem?_append_left (by omega)]
+    rw [List.getElem?_take]; simp [h1]
+  · by_cases h2 : i < off + d.length
+    · rw [if_pos ⟨by omega, h2⟩, List.append_assoc, List.getElem?_append_right (by omega), hlt,
+        List.getElem?_append_left (by omega)]
+    · have : ¬ (off ≤ i ∧ i < off + d.length) := by omega
+      rw [if_neg this, List.getElem?_append_right (by simp; omega)]
+      simp only [List.length_append, hlt, List.getElem?_drop]
+      congr 1; omega
+
+theorem writeAt_length (f d : Bytes) (off : Nat) (hd : d ≠ []) (h : off + d.length ≤ f.length) :
+    (writeAt f off d).length = f.length := (writeAt_spec f d off hd h).1
+
+/-- an honest chunk for a part inside the blob that still lacks bytes completes it, writing the blob's bytes -/
+theorem chunkStep_honest_part (c file : Bytes) (p : Part) (w : Bool) (hlt : p.done < p.size)
+    (hin : p.off + p.size ≤ c.length) :
+    chunkStep c honestReply ⟨file, p, w⟩ =
+      (.done, ⟨writeAt file (p.off + p.done) ((c.drop (p.off + p.done)).take (p.size - p.done)),
+        { p with done := p.size }, true⟩) := by
+  have hlen : ((c.drop (p.off + p.done)).take (p.size - p.done)).length = p.size - p.done := by
+    simp only [List.length_take, List.length_drop]; omega
+  have hne : ((c.drop (p.off + p.done)).take (p.size - p.done)).isEmpty = false := by
+    cases h : (c.drop (p.off + p.done)).take (p.size - p.done) with
+    | nil => rw [h] at hlen; simp at hlen; omega
+    | cons _ _ => rfl
+  have hsub : p.off + p.size - (p.off + p.done) = p.size - p.done := by omega
+  have hadd : p.done + (p.size - p.done) = p.size := by omega
+  simp only [chunkStep, honestReply, bodyOf, hsub, List.take_take, Nat.min_self, hlen, hne, if_true, Bool.not_false,
+    Bool.or_true, hadd]
+  simp
+
+/-- the bytes a resumed download still has to fetch -/
+def Pending (ps : List (Nat × Part)) (i : Nat) : Prop :=
+  ∃ kp ∈ ps, kp.2.off + kp.2.done ≤ i ∧ i < kp.2.off + kp.2.size
+
+/-- honest CDN, any records inside the blob, ANY order: every part completes, the file keeps its length, every pending
+    byte becomes the blob's and every other byte is untouched -/
+theorem runPartsIdx_honest (cfg : Cfg) (c : Bytes) (hret : 0 < cfg.retries) (ps : List (Nat × Part)) :
+    ∀ (file : Bytes) (n : Nat), file.length = c.length →
+      (∀ kp ∈ ps, kp.2.done ≤ kp.2.size ∧ kp.2.off + kp.2.size ≤ c.length) →
+      ∃ file' res n', runPartsIdx cfg c [] ps file n = (true, file', res, n') ∧ file'.length = c.length ∧
+        (∀ i, Pending ps i → file'[i]? = c[i]?) ∧ (∀ i, ¬ Pending ps i → file'[i]? = file[i]?) := by
+  induction ps with
+  | nil =>
+    intro file n hl _
+    refine ⟨file, [], n, rfl, hl, ?_, fun _ _ => rfl⟩
+    intro i h
+    obtain ⟨_, hm, _⟩ := h
+    cases hm
+  | cons kp ps ih =>
+    obtain ⟨k, p⟩ := kp
+    intro file n hl hall
+    have hp : p.done ≤ p.size ∧ p.off + p.size ≤ c.length := hall (k, p) (by simp)
+    have hrest : ∀ kp ∈ ps, kp.2.done ≤ kp.2.size ∧ kp.2.off + kp.2.size ≤ c.length :=
+      fun kp h => hall kp (by simp [h])
+    by_cases hdone : p.done = p.size
+    · obtain ⟨file', res, n', hrun, hl', hpend, hnot⟩ := ih file n hl hrest
+      refine ⟨file', (k, p) :: res, n', by simp [runPartsIdx, hdone, hrun], hl', ?_, ?_⟩
+      · intro i hi
+        obtain ⟨kq, hm, h1, h2⟩ := hi
+        rcases List.mem_cons.1 hm with e | hm'
+        · subst e; simp only at h1 h2; omega
+        · exact hpend i ⟨kq, hm', h1, h2⟩
+      · intro i hi
+        exact hnot i (fun ⟨kq, hm, h1, h2⟩ => hi ⟨kq, by simp [hm], h1, h2⟩)
+    · have hlt : p.done < p.size := by have := hp.1; omega
+      obtain ⟨t, ht⟩ : ∃ t, cfg.retries = t + 1 := ⟨cfg.retries - 1, by omega⟩
+      let body := (c.drop (p.off + p.done)).take (p.size - p.done)
+      have hblen : body.length = p.size - p.done := by
+        simp only [body, List.length_take, List.length_drop]; have := hp.2; omega
+      have hbne : body ≠ [] := by
+        intro e; rw [e] at hblen; simp at hblen; omega
+      have hfit : p.off + p.done + body.length ≤ file.length := by rw [hblen, hl]; have := hp.2; omega
+      let file1 := writeAt file (p.off + p.done) body
+      have hl1 : file1.length = c.length := (writeAt_length file body _ hbne hfit).trans hl
+      obtain ⟨file', res, n', hrun, hl', hpend, hnot⟩ := ih file1 (n + 1) hl1 hrest
+      have hget : ∀ i, file1[i]? = if p.off + p.done ≤ i ∧ i < p.off + p.size then c[i]? else file[i]? := by
+        intro i
+        rw [show file1 = writeAt file (p.off + p.done) body from rfl, writeAt_getElem? file body _ i hbne hfit, hblen]
+        have hsz : p.off + p.done + (p.size - p.done) = p.off + p.size := by omega
+        rw [hsz]
+        split
+        · rename_i hin
+          simp only [body, List.getElem?_take, List.getElem?_drop]
+          have : i - (p.off + p.done) < p.size - p.done := by omega
+          simp only [this, if_true]
+          congr 1; omega
+        · rfl
+      refine ⟨file', (k, { p with done := p.size }) :: res, n', ?_, hl', ?_, ?_⟩
+      · simp only [runPartsIdx, hdone, if_false, List.getD_eq_getElem?_getD, List.getElem?_nil, Option.getD_none,
+          runPart, ht, runTail, chunkStep_honest_part c file p false hlt hp.2]
+        simp only [body, file1] at hrun
+        rw [hrun]
+        simp
+      · intro i hi
+        by_cases hr : Pending ps i
+        · exact hpend i hr
+        · rw [hnot i hr, hget i]
+          obtain ⟨kq, hm, h1, h2⟩ := hi
+          rcases List.mem_cons.1 hm with e | hm'
+          · subst e; simp only at h1 h2; simp [h1, h2]
+          · exact absurd ⟨kq, hm', h1, h2⟩ hr
+      · intro i hi
+        have hr : ¬ Pending ps i := fun ⟨kq, hm, h1, h2⟩ => hi ⟨kq, by simp [hm], h1, h2⟩
+        rw [hnot i hr, hget i]
+        have : ¬ (p.off + p.done ≤ i ∧ i < p.off + p.size) := fun ⟨h1, h2⟩ => hi ⟨(k, p), by simp, h1, h2⟩
+        rw [if_neg this]
+
+
+
+/-- a resume state (data file + any number of part records) that FITS blob `c`: the data file has the blob's length, the
+    record sizes add up to it (what `Prepare` takes as `b.Total`), every record lies inside the blob and counts at most
+    its size as complete, the data file agrees with the blob on every byte a record counts as complete, and the
+    records cover the blob.  This is what interrupted / failed attempts leave under truthful HEAD answers and honest
+    bytes; it does not ask for any order of the records, nor for disjointness. -/
+def ResumeFits (c : Bytes) (pa : Partial) : Prop :=
+  ∃ data, pa.data = some data ∧ pa.parts ≠ [] ∧ data.length = c.length ∧
+    (pa.parts.map (·.size)).sum = c.length ∧
+    (∀ p ∈ pa.parts, p.done ≤ p.size ∧ p.off + p.size ≤ c.length ∧
+      ∀ i, p.off ≤ i → i < p.off + p.done → data[i]? = c[i]?) ∧
+    (∀ i, i < c.length → ∃ p ∈ pa.parts, p.off ≤ i ∧ i < p.off + p.size)
+
+theorem mem_globParts {ps : List Part} {kp : Nat × Part} (h : kp ∈ globParts ps) : kp.2 ∈ ps :=
+  (globParts_perm ps).mem_iff.1 (List.mem_map_of_mem h)
+
+theorem mem_globParts_of_mem {ps : List Part} {p : Part} (h : p ∈ ps) : ∃ kp ∈ globParts ps, kp.2 = p := by
+  have := (globParts_perm ps).mem_iff.2 h
+  obtain ⟨kp, hk, e⟩ := List.mem_map.1 this
+  exact ⟨kp, hk, e⟩
+
+theorem downloadLayer_honest_resumeN (cfg : Cfg) (reg : Registry) (d : Digest) (c : Bytes) (net : Net) (pa : Partial)
+    (hret : 0 < cfg.retries) (hc : lookupC d reg.content = some c) (hpa : ResumeFits c pa) :
+    ∃ net', downloadLayer cfg reg d LScript.empty pa net = (.ok c, Partial.none, net') := by
+  obtain ⟨pdata, parts⟩ := pa
+  obtain ⟨data, hdat, hne, hlen, hsum, hall, hcover⟩ := hpa
+  simp only at hdat hne hsum hall hcover
+  subst hdat
+  have hemp : parts.isEmpty = false := by cases parts <;> simp_all
+  have htot : ((globParts parts).map (·.2.size)).sum = c.length := (resume_total_order_independent parts).trans hsum
+  have hres : resize data c.length = data := by rw [← hlen]; exact resize_self data
+  obtain ⟨file', res, n', hrun, hl', hpend, hnot⟩ := runPartsIdx_honest cfg c hret (globParts parts) data net.nc hlen
+    (fun kp hk => ⟨(hall kp.2 (mem_globParts hk)).1, (hall kp.2 (mem_globParts hk)).2.1⟩)
+  have hfc : file' = c := by
+    apply List.ext_getElem?
+    intro i
+    by_cases hi : i < c.length
+    · by_cases hp : Pending (globParts parts) i
+      · exact hpend i hp
+      · rw [hnot i hp]
+        obtain ⟨p, hpm, h1, h2⟩ := hcover i hi
+        obtain ⟨kp, hk, e⟩ := mem_globParts_of_mem hpm
+        have hlt : i < p.off + p.done := by
+          by_cases hge : p.off + p.done ≤ i
+          · exact absurd ⟨kp, hk, by rw [e]; exact hge, by rw [e]; exact h2⟩ hp
+          · omega
+        exact (hall p hpm).2.2 i h1 hlt
+    · rw [List.getElem?_eq_none (by omega), List.getElem?_eq_none (by omega)]
+  subst hfc
+  have h1 : (downloadLayer cfg reg d LScript.empty ⟨some data, parts⟩ net).1 = .ok file' := by
+    simp [downloadLayer, hc, LScript.empty, mrr_pass_direct, directLoop, replyFails, hemp, htot, hres, hrun]
+  have h2 : (downloadLayer cfg reg d LScript.empty ⟨some data, parts⟩ net).2.1 = Partial.none := by
+    simp [downloadLayer, hc, LScript.empty, mrr_pass_direct, directLoop, replyFails, hemp, htot, hres, hrun]
+  exact ⟨_, Prod.ext h1 (Prod.ext h2 rfl)⟩
+
+
+
+/-- honest registry, honest scripts, resume state of the single-part kind or any fitting multi-part state allowed: the download loop succeeds and every
+    blob it adds is the registry's -/
+theorem dlLoop_honest_resumeN (cfg : Cfg) (hash : Bytes → Digest) (reg : Registry)
+    (hret : 0 < cfg.retries) (hmin : 0 < cfg.minSize) (hmax : 0 < cfg.maxSize) (ls : List Layer) :
+    ∀ (s : DlState),
+      (∀ l ∈ ls, ∃ d c, l.digest = .ok d ∧ lookupC d reg.content = some c ∧ hash c = d) →
+      (∀ d c, s.st.blobs d = some c → hash c = d) →
+      (∀ l ∈ ls, ∀ d, l.digest = .ok d → s.st.blobs d = none → ∀ c, lookupC d reg.content = some c →
+        s.st.partials d = Partial.none ∨ Resume1Ok c (s.st.partials d) ∨ ResumeFits c (s.st.partials d)) →
+      s.canceled = false →
+      ∃ s', dlLoop cfg hash reg Scripts.honest ls s = (.ok (), s') ∧
+        (∀ d c, s'.st.blobs d = some c → hash c = d) := by
+  induction ls with
+  | nil => intro s _ hb _ _; exact ⟨s, rfl, hb⟩
+  | cons l ls ih =>
+    intro s hreg hb hclean hcan
+    obtain ⟨d, c, hd, hc, hh⟩ := hreg l (by simp)
+    have hreg' : ∀ l' ∈ ls, ∃ d c, l'.digest = .ok d ∧ lookupC d reg.content = some c ∧ hash c = d :=
+      fun l' hl' => hreg l' (by simp [hl'])
+    cases hbl : s.st.blobs d with
+    | some c0 =>
+      obtain ⟨s', hs', hb'⟩ := ih { s with skip := markSkip cfg d true s.skip } hreg' hb
+        (fun l' hl' d' hd' hn => hclean l' (by simp [hl']) d' hd' hn) hcan
+      refine ⟨s', ?_, hb'⟩
+      simp only [dlLoop, hd, hbl]
+      exact hs'
+    | none =>
+      have hdl : ∃ net', downloadLayer cfg reg d LScript.empty (s.st.partials d) s.net = (.ok c, Partial.none, net') := by
+        rcases hclean l (by simp) d hd hbl c hc with hpa | hr | hn
+        · rw [hpa]; exact downloadLayer_honest cfg reg d c s.net hret hmin hmax hc
+        · exact downloadLayer_honest_resume1 cfg reg d c s.net _ hret hc hr
+        · exact downloadLayer_honest_resumeN cfg reg d c s.net _ hret hc hn
+      obtain ⟨net', hdl⟩ := hdl
+      let s1 : DlState :=
+        { st := { s.st with blobs := upd s.st.blobs d (some c), partials := upd s.st.partials d Partial.none }
+          net := net', skip := markSkip cfg d false s.skip, renamed := s.renamed ++ [d], canceled := false }
+      have hb1 : ∀ x cx, s1.st.blobs x = some cx → hash cx = x := by
+        intro x cx hx
+        by_cases e : x = d
+        · subst e
+          simp only [s1, upd_same] at hx
+          cases hx; exact hh
+        · simp only [s1, upd_other _ _ _ _ e] at hx
+          exact hb x cx hx
+      have hcl1 : ∀ l' ∈ ls, ∀ d', l'.digest = .ok d' → s1.st.blobs d' = none → ∀ c', lookupC d' reg.content = some c' →
+          s1.st.partials d' = Partial.none ∨ Resume1Ok c' (s1.st.partials d') ∨ ResumeFits c' (s1.st.partials d') := by
+        intro l' hl' d' hd' hn c' hc'
+        by_cases e : d' = d
+        · subst e; simp only [s1, upd_same] at hn; cases hn
+        · simp only [s1, upd_other _ _ _ _ e] at hn ⊢
+          exact hclean l' (by simp [hl']) d' hd' hn c' hc'
+      obtain ⟨s', hs', hb'⟩ := ih s1 hreg' hb1 hcl1 rfl
+      refine ⟨s', ?_, hb'⟩
+      have hls : lookupS d Scripts.honest.layers = LScript.empty := rfl
+      have hcond : (cfg.verifyEarly && hash c != d) = false := by simp [hh]
+      have hcf : (false || (cfg.verifyEarly && Scripts.honest.cancel == some (CancelPoint.verifying s.renamed.length))) = false := by
+        simp [Scripts.honest]
+      simp only [dlLoop, hd, hbl, hls, hdl, hcond, hcan, hcf, Bool.false_eq_true, if_false]
+      exact hs'
+
 end OllamaVerif.Pull
